@@ -116,7 +116,9 @@ where
                 }
                 // If no messages are available and there's no work to do, block this future
                 Poll::Pending if stream.is_empty() && buffered_item.is_none() => {
-                    return Poll::Pending
+                    // A previous flush may still be pending
+                    ready!(sink.as_mut().poll_flush(cx)).unwrap();
+                    return Poll::Pending;
                 }
                 // Otherwise, move on with running the stream
                 Poll::Pending => (),
